@@ -10,7 +10,7 @@ Check(r) ==
     [] r.op = "sign" -> r.sig = Sign(r.seed, r.m, r.ph) /\ r.forms_agree
     [] r.op = "verify" -> /\ r.open_agrees /\ r.open_ok
                           /\ (r.honest => r.accepted)
-                          /\ (r.accepted => VerifyStrict(r.sig, r.m, r.pk, FALSE))
+                          /\ (r.accepted => VerifyStrict(r.sig, r.m, r.pk, r.ph))
     [] r.op = "convert" -> /\ r.ret_pk = 0 /\ r.ret_sk = 0
                            /\ r.xsk = SkToCurve(r.seed) /\ r.xpk = PkToCurve(r.pk)
                            /\ XC!X25519Base(r.xsk) = r.xpk                       \* conversion commutes with public-key derivation
